@@ -104,14 +104,25 @@ Pre_two == Fill(Evens(5), 2)
 KL_big42 == [i \in 1..42 |-> 960]
 Pre_deep == Fill(Evens(20), 1)
 
-(* S3b "presplit": the same keys, 18 preloaded: the root (an internal node) is     *)
+(* S3b "presplit": the same keys, 12 preloaded: the root (an internal node) is     *)
 (* full, the next leaf split splits it and adds a level                             *)
-Pre_presplit == Fill(Evens(18), 1)
+Pre_presplit == Fill(Evens(12), 1)
 
 (* S4 "sepchain": keys of 1200 bytes (overflow chains for separators in internal   *)
 (* nodes) next to short ones                                                       *)
 KL_mixed16 == [i \in 1..16 |-> IF i \in {5, 6, 9, 10, 11, 12} THEN 1200 ELSE 18]
 Pre_sepchain == Fill(<<1, 2, 3, 4, 5, 6, 9, 10, 11, 12, 13, 14>>, 3)
+
+(* S4b "sepmerge": two leaves [2,3] | [5,6] under a separator (key 5) that owns a   *)
+(* chain, both close to underflow: the next delete merges them, frees the chain     *)
+(* and collapses the root                                                           *)
+Pre_sepmerge == Fill(<<5, 6, 9, 10>>, 1) \o Fill(<<1, 2, 3>>, 2) \o <<<<"D", 1, 0>>, <<"D", 10, 0>>, <<"D", 9, 0>>>>
+
+(* S4c "chainsplit": 1200-byte keys only; 40 preloaded: the root holds 8 separators *)
+(* (each 488 bytes local + a chain) and is full: the next leaf split splits it, and  *)
+(* the promoted separator takes its chain along to the new root                      *)
+KL_chain44 == [i \in 1..44 |-> 1200]
+Pre_chainsplit == Fill(Upto(40), 1)
 
 (* S5 "fullparent": a root with five separators (three local 999-byte keys, two    *)
 (* 1200-byte keys with chains) is 30 bytes short of a page; the leaf [9..12] has    *)
